@@ -189,6 +189,8 @@ def _classes():
             self.wire = self.calls   # (snapshot uses len(wire))
             self.inflight = 0
             self.overlap = False     # two transport.send_all calls in flight at once
+            self.unlocked = []       # BIO reads / transport sends made without holding the transport send lock
+            self.send_lock = None
 
         async def _gate(self):
             name = asyncio.current_task().get_name()
@@ -209,6 +211,8 @@ def _classes():
             # piecewise: the first half reaches the peer now, the rest when the call ends (normally or not); the plaintext
             # the peer's TLS layer decodes for this call is known then.  Two calls in flight at once really corrupt the
             # ciphertext stream: the peer's TLS layer is the judge.
+            if self.send_lock is not None and self.send_lock.holder is not asyncio.current_task():
+                self.unlocked.append("transport.send_all was called outside the transport send lock")
             idx = len(self.calls)
             self.calls.append(b"")
             before = len(self.peer.plain_in)
@@ -259,17 +263,70 @@ def _classes():
     class MemBackend(AsyncIOBackend):
         fair = False
         transport = None
+        record_locks = None
 
         async def create_tcp_connection(self, host, port, **kw):
             return self.transport
 
         def create_fair_lock(self):
-            if self.fair:
-                return FairLock(self)
-            return super().create_fair_lock()
+            lock = FairLock(self) if self.fair else super().create_fair_lock()
+            if self.record_locks is not None:
+                lock = HolderLock(lock)
+                self.record_locks.append(lock)
+            return lock
+
+    class HolderLock:
+        """the lock itself, plus who holds it (no extra suspension point)"""
+
+        def __init__(self, real):
+            self.real = real
+            self.holder = None
+
+        async def acquire(self):
+            await self.real.acquire()
+            self.holder = asyncio.current_task()
+            return True
+
+        def release(self):
+            self.holder = None
+            self.real.release()
+
+        def locked(self):
+            return self.real.locked()
+
+        async def __aenter__(self):
+            await self.acquire()
+
+        async def __aexit__(self, *a):
+            self.release()
+
+    class BioProxy:
+        """the transport's view of its write BIO: a read outside the send lock is recorded"""
+
+        def __init__(self, real, lower, lock):
+            self.real, self.lower, self.lock = real, lower, lock
+
+        @property
+        def pending(self):
+            return self.real.pending
+
+        @property
+        def eof(self):
+            return self.real.eof
+
+        def read(self, n=-1):
+            if self.lower.gated and self.lock.holder is not asyncio.current_task():
+                self.lower.unlocked.append("the write BIO was read outside the transport send lock")
+            return self.real.read(n)
+
+        def write(self, data):
+            return self.real.write(data)
+
+        def write_eof(self):
+            return self.real.write_eof()
 
     _CLS.update(PieceSerializer=PieceSerializer, MemTransport=MemTransport, MemBackend=MemBackend, FairLock=FairLock,
-                TlsLower=TlsLower,
+                TlsLower=TlsLower, BioProxy=BioProxy,
                 StreamProtocol=StreamProtocol)
     return _CLS
 
@@ -347,8 +404,13 @@ class Session:
 
             peer = tlskit.Peer(tlskit.server_ctx(tlskit.TLS13), True, [])
             self.transport = lower = C["TlsLower"](backend, peer)
+            backend.record_locks = []
             tls = loop.run_until_complete(AsyncTLSStreamTransport.wrap(
                 lower, tlskit.client_ctx(tlskit.TLS13), server_side=False, server_hostname="localhost"))
+            if backend.record_locks:         # the first fair lock the transport creates is its send lock
+                lower.send_lock = backend.record_locks[0]
+                with contextlib.suppress(AttributeError):
+                    tls._write_bio = C["BioProxy"](tls._write_bio, lower, lower.send_lock)
             lower.gated = True
             lower.inbox.clear()      # (post-handshake session tickets: a reader must find nothing to read)
             self._keep.append(tls)
@@ -451,6 +513,8 @@ def execute(kind, progs, actions, epilogue=False, readers=()):
             snaps = s.snaps
             if getattr(s.transport, "overlap", False):
                 wire = wire + [b"<overlap>"]
+            for note in sorted(set(getattr(s.transport, "unlocked", None) or ())):
+                wire = wire + [b"<unlocked> " + note.encode()]
         finally:
             s.finish()
     return snaps, wire
@@ -748,89 +812,131 @@ def _is_self_attr(node, attr):
     return isinstance(node, ast.Attribute) and isinstance(node.value, ast.Name) and node.value.id == "self" and node.attr == attr
 
 
-def source_params():
-    """Facts of the source that the models transcribe, read with `ast`, fail closed.  Every value must be True for the
-    model (Conc/FairLock.v, Conc/TlsSend.v) to be the code: Props/C12.v proves exactly that."""
+class _Outside(Exception):
+    """the source is outside the fragment the `ast` reader understands: the behavioural probes decide alone"""
+
+
+def _bool_of(expr, env):
+    """value of a condition built from self._locked / self._waiters with not / and / or; _Outside otherwise"""
     import ast
+
+    if isinstance(expr, ast.BoolOp):
+        vals = [_bool_of(v, env) for v in expr.values]
+        return all(vals) if isinstance(expr.op, ast.And) else any(vals)
+    if isinstance(expr, ast.UnaryOp) and isinstance(expr.op, ast.Not):
+        return not _bool_of(expr.operand, env)
+    for name in env:
+        if _is_self_attr(expr, name):
+            return env[name]
+    raise _Outside("condition outside the fragment")
+
+
+def ast_params():
+    """the facts as far as the `ast` reader sees them (tolerant of guard clauses, negated conditions, nesting, helpers
+    of the TLS class); _Outside when a piece is outside its fragment"""
+    import ast
+    import os
 
     from common import runner
 
-    def bad(msg):
-        raise runner.TranslateError(msg)
-
     out = {}
-    # ---- FairLock.acquire
+    # ---- FairLock.acquire: the first `if` decides between the fast path and parking
     fn = _func(_FL, "FairLock", "acquire")
     ifs = [n for n in fn.body if isinstance(n, ast.If)]
-    if len(ifs) != 1:
-        bad("FairLock.acquire: expected one top-level `if`")
-    cond = ifs[0].test
-    if isinstance(cond, ast.BoolOp) and isinstance(cond.op, ast.Or) and len(cond.values) == 2 \
-            and _is_self_attr(cond.values[0], "_locked") and _is_self_attr(cond.values[1], "_waiters"):
-        out["fairlock_fast_path_checks_queue"] = True
-    elif _is_self_attr(cond, "_locked"):
-        out["fairlock_fast_path_checks_queue"] = False
+    if not ifs:
+        raise _Outside("FairLock.acquire: no top-level if")
+    first = ifs[0]
+    body_awaits = any(isinstance(n, ast.Await) for st in first.body for n in ast.walk(st))
+    body_returns = any(isinstance(n, ast.Return) for st in first.body for n in ast.walk(st))
+    if body_awaits and not first.orelse:
+        parks_when = True          # `if <cond>: <park>` ; falls through to `self._locked = True`
+    elif body_returns and not body_awaits:
+        parks_when = False         # guard clause: `if <cond>: self._locked = True; return` ; then <park>
     else:
-        bad("FairLock.acquire: unrecognised fast-path condition")
-    tries = [n for n in ast.walk(ifs[0]) if isinstance(n, ast.Try)]
+        raise _Outside("FairLock.acquire: unrecognised shape of the first if")
+    table = {}
+    for locked in (False, True):
+        for queued in (False, True):
+            table[(locked, queued)] = _bool_of(first.test, {"_locked": locked, "_waiters": queued}) == parks_when
+    if table[(False, False)] or not table[(True, False)] or not table[(True, True)]:
+        raise _Outside("FairLock.acquire: the condition does not park exactly when the lock is held")
+    out["fairlock_fast_path_checks_queue"] = table[(False, True)]
+    tries = [n for n in ast.walk(fn) if isinstance(n, ast.Try)]
     inner = [t for t in tries if t.finalbody]
     outer = [t for t in tries if t.handlers]
-    if len(inner) != 1 or len(outer) != 1:
-        bad("FairLock.acquire: expected try/finally inside try/except")
+    if len(inner) != 1 or len(outer) != 1 or len(outer[0].handlers) != 1:
+        raise _Outside("FairLock.acquire: expected one try/finally and one try/except")
     fin = inner[0].finalbody
-    if len(fin) != 1 or not isinstance(fin[0], ast.Expr) or not isinstance(fin[0].value, ast.Call):
-        bad("FairLock.acquire: unrecognised finally block")
+    if len(fin) != 1 or not isinstance(fin[0], ast.Expr) or not isinstance(fin[0].value, ast.Call) \
+            or not isinstance(fin[0].value.func, ast.Attribute) or not _is_self_attr(fin[0].value.func.value, "_waiters"):
+        raise _Outside("FairLock.acquire: unrecognised finally block")
     call = fin[0].value
-    if not (isinstance(call.func, ast.Attribute) and _is_self_attr(call.func.value, "_waiters")):
-        bad("FairLock.acquire: the finally block does not act on self._waiters")
-    if call.func.attr == "remove" and len(call.args) == 1 and isinstance(call.args[0], ast.Name) and call.args[0].id == "waiter":
+    waiter_names = {t.id for n in ast.walk(fn) if isinstance(n, ast.Assign) for t in n.targets if isinstance(t, ast.Name)}
+    if call.func.attr == "remove" and len(call.args) == 1 and isinstance(call.args[0], ast.Name) and call.args[0].id in waiter_names:
         out["fairlock_leave_removes_own_waiter"] = True
     elif call.func.attr in ("popleft", "pop"):
         out["fairlock_leave_removes_own_waiter"] = False
     else:
-        bad("FairLock.acquire: unrecognised way of leaving the queue")
+        raise _Outside("FairLock.acquire: unrecognised way of leaving the queue")
     body = outer[0].handlers[0].body
-    if len(outer[0].handlers) != 1:
-        bad("FairLock.acquire: expected one except clause")
-    if len(body) == 2 and isinstance(body[0], ast.If) and isinstance(body[1], ast.Raise) \
-            and isinstance(body[0].test, ast.UnaryOp) and isinstance(body[0].test.op, ast.Not) \
-            and _is_self_attr(body[0].test.operand, "_locked") and len(body[0].body) == 1 \
-            and isinstance(body[0].body[0], ast.Expr) and isinstance(body[0].body[0].value, ast.Call) \
-            and _is_self_attr(body[0].body[0].value.func, "_wake_up_first") and not body[0].orelse:
+    if body and isinstance(body[-1], ast.Raise) and len(body) == 2 and isinstance(body[0], ast.If) and not body[0].orelse \
+            and len(body[0].body) == 1 and isinstance(body[0].body[0], ast.Expr) and isinstance(body[0].body[0].value, ast.Call) \
+            and _is_self_attr(body[0].body[0].value.func, "_wake_up_first"):
+        # re-wakes iff the lock is free
+        free = _bool_of(body[0].test, {"_locked": False, "_waiters": True})
+        held = _bool_of(body[0].test, {"_locked": True, "_waiters": True})
+        if not free or held:
+            raise _Outside("FairLock.acquire: unrecognised re-wake condition")
         out["fairlock_cancel_rewakes_when_free"] = True
     elif len(body) == 1 and isinstance(body[0], ast.Raise):
         out["fairlock_cancel_rewakes_when_free"] = False
     else:
-        bad("FairLock.acquire: unrecognised except clause")
-    # ---- FairLock._wake_up_first
+        raise _Outside("FairLock.acquire: unrecognised except clause")
     fn = _func(_FL, "FairLock", "_wake_up_first")
     subs = [n for n in ast.walk(fn) if isinstance(n, ast.Subscript) and _is_self_attr(n.value, "_waiters")]
     if len(subs) != 1:
-        bad("FairLock._wake_up_first: expected one subscript of self._waiters")
+        raise _Outside("FairLock._wake_up_first: expected one subscript of self._waiters")
     idx = subs[0].slice
-    if isinstance(idx, ast.Constant) and idx.value == 0:
-        out["fairlock_wakes_the_head"] = True
-    elif isinstance(idx, ast.UnaryOp) or (isinstance(idx, ast.Constant) and idx.value != 0):
+    if isinstance(idx, ast.Constant) and isinstance(idx.value, int):
+        out["fairlock_wakes_the_head"] = idx.value == 0
+    elif isinstance(idx, ast.UnaryOp) and isinstance(idx.op, ast.USub):
         out["fairlock_wakes_the_head"] = False
     else:
-        bad("FairLock._wake_up_first: unrecognised index")
-    # ---- TLS send path
-    fn = _func(_TLS, "AsyncTLSStreamTransport", "send_all_from_iterable")
-    calls = [n.func.attr for n in ast.walk(fn) if isinstance(n, ast.Call) and isinstance(n.func, ast.Attribute)
-             and _is_self_attr(n.func.value, "_data_deque")]
-    loops = [n for n in ast.walk(fn) if isinstance(n, (ast.For, ast.AsyncFor, ast.While))]
-    if calls == ["extend"] and not loops:
-        out["tls_whole_packet_enters_backlog_at_once"] = True
-    elif "append" in calls or loops:
-        out["tls_whole_packet_enters_backlog_at_once"] = False
-    else:
-        bad("AsyncTLSStreamTransport.send_all_from_iterable: unrecognised backlog handling")
-    # every read of the write BIO and every send on the wrapped transport, anywhere in the class, under the send lock
-    _func(_TLS, "AsyncTLSStreamTransport", "_retry_ssl_method")
+        raise _Outside("FairLock._wake_up_first: unrecognised index")
+    return out
+
+
+def ast_params_tls():
+    import ast
     import os
 
-    tree = ast.parse(open(os.path.join(runner.REPO, _TLS)).read())
-    cls = [n for n in tree.body if isinstance(n, ast.ClassDef) and n.name == "AsyncTLSStreamTransport"][0]
+    from common import runner
+
+    out = {}
+    try:
+        tree = ast.parse(open(os.path.join(runner.REPO, _TLS)).read())
+    except (OSError, SyntaxError) as exc:
+        raise runner.TranslateError(f"{_TLS}: {exc}")
+    found = [n for n in tree.body if isinstance(n, ast.ClassDef) and n.name == "AsyncTLSStreamTransport"]
+    if not found:
+        raise _Outside("class AsyncTLSStreamTransport not found")
+    cls = found[0]
+    methods = {m.name: m for m in cls.body if isinstance(m, (ast.FunctionDef, ast.AsyncFunctionDef))}
+    fn = methods.get("send_all_from_iterable")
+    if fn is None:
+        raise _Outside("send_all_from_iterable not found")
+    aliases = {t.id for n in ast.walk(fn) if isinstance(n, ast.Assign) and _is_self_attr(n.value, "_data_deque")
+               for t in n.targets if isinstance(t, ast.Name)}
+    calls = [n.func.attr for n in ast.walk(fn) if isinstance(n, ast.Call) and isinstance(n.func, ast.Attribute)
+             and (_is_self_attr(n.func.value, "_data_deque") or (isinstance(n.func.value, ast.Name) and n.func.value.id in aliases))]
+    loops = [n for n in ast.walk(fn) if isinstance(n, (ast.For, ast.AsyncFor, ast.While))]
+    awaits_in_loops = any(isinstance(x, ast.Await) for lp in loops for x in ast.walk(lp))
+    if calls == ["extend"] and not loops:
+        out["tls_whole_packet_enters_backlog_at_once"] = True
+    elif calls and awaits_in_loops:
+        out["tls_whole_packet_enters_backlog_at_once"] = False
+    else:
+        raise _Outside("send_all_from_iterable: unrecognised backlog handling")
     under_lock = set()
     for node in ast.walk(cls):
         if isinstance(node, ast.AsyncWith) and any(
@@ -843,15 +949,109 @@ def source_params():
     sends = [n for n in ast.walk(cls) if isinstance(n, ast.Call) and isinstance(n.func, ast.Attribute) and n.func.attr == "send_all"
              and _is_self_attr(n.func.value, "_transport")]
     if not reads or not sends:
-        bad("AsyncTLSStreamTransport: no write-BIO read / transport send found")
+        raise _Outside("no direct write-BIO read / transport send in the class (aliased?)")
     out["tls_bio_read_under_send_lock"] = all(id(n) in under_lock for n in reads)
     out["tls_transport_send_under_send_lock"] = all(id(n) in under_lock for n in sends)
     return out
 
 
+def behavioural_params():
+    """the same facts decided by scripted probes on the REAL FairLock / AsyncTLSStreamTransport (deterministic loop)"""
+    from common import runner
+
+    S, T = [A_SETTLE], [A_TICK]
+    one = lambda n: [[[bytes([0x80 | t, 0, 1, t])]] for t in range(n)]      # noqa: E731  one one-piece packet per task
+
+    def final(kind, progs, acts, readers=()):
+        snaps, wire = execute(kind, progs, acts, readers=readers)
+        return snaps[-1][1], wire
+
+    out = {}
+    # A holds, B C queue, A's send ends: the head (B) gets the lock, then C
+    st1, _ = final(KIND_RAW, one(3), [[A_START, 0], [A_START, 1], [A_START, 2], S, [A_OK, 0], S])
+    out["fairlock_wakes_the_head"] = st1 == [10, 2, 1]
+    # A holds, B C D queue, C (not the head) is cancelled, A ends: B must get the lock, then D
+    st2, _ = final(KIND_RAW, one(4), [[A_START, 0], [A_START, 1], [A_START, 2], [A_START, 3], S, [A_CANCEL, 2], S, [A_OK, 0], S])
+    st3, _ = final(KIND_RAW, one(4), [[A_START, 0], [A_START, 1], [A_START, 2], [A_START, 3], S, [A_CANCEL, 2], S, [A_OK, 0], S,
+                                      [A_OK, 1], S])
+    out["fairlock_leave_removes_own_waiter"] = st2 == [10, 2, 11, 1] and st3 == [10, 10, 11, 2]
+    # A ends (B woken, not run yet), B cancelled: B's except branch must wake C
+    st4, _ = final(KIND_RAW, one(3), [[A_START, 0], [A_START, 1], [A_START, 2], S, [A_OK, 0], T, [A_CANCEL, 1], S])
+    out["fairlock_cancel_rewakes_when_free"] = st4 == [10, 11, 2]
+    # A ends and C arrives in the same iteration (lock free, B queued): C must queue behind B
+    st5, _ = final(KIND_RAW, one(3), [[A_START, 0], [A_START, 1], S, [A_OK, 0], [A_START, 2], S])
+    out["fairlock_fast_path_checks_queue"] = st5 == [10, 2, 1]
+    # ---- TLS: two-chunk packet: both chunks are in the first underlying send
+    a = [bytes([0x80, 0, 2]), bytes([5, 6])]
+    progs = [[a], [[bytes([0x81, 0, 1, 7])]], []]
+    _, wire = final(KIND_TLS_FAIR, progs, [[A_START, 0], S, [A_OK, 0], S])
+    out["tls_whole_packet_enters_backlog_at_once"] = bool(wire) and wire[0] == b"".join(a)
+    # two senders, a reader, a cancelled queued sender: where were the write BIO read and the wrapped transport used?
+    notes = []
+    for acts in ([[A_START, 0], [A_START, 1], [A_START, 2], S, [A_OK, 0], S, [A_OK, 1], S, [A_OK, 2], S],
+                 [[A_START, 0], [A_START, 2], [A_START, 1], T, S, [A_CANCEL, 1], S, [A_OK, 0], S, [A_OK, 2], S]):
+        for kind in (KIND_TLS, KIND_TLS_FAIR):
+            _, wire = final(kind, progs, acts, readers=(2,))
+            notes += [w for w in wire if w.startswith(b"<unlocked> ")]
+    out["tls_bio_read_under_send_lock"] = not any(b"BIO" in w for w in notes)
+    out["tls_transport_send_under_send_lock"] = not any(b"send_all" in w for w in notes)
+    # the probes themselves must be wired: a session whose write BIO is not the recording proxy proves nothing
+    with detloop.running() as loop:
+        sess = Session(loop, KIND_TLS_FAIR, progs, (2,))
+        try:
+            wired = type(sess.tls._write_bio).__name__ == "BioProxy" and sess.transport.send_lock is not None
+        finally:
+            sess.finish()
+    if not wired:
+        raise runner.TranslateError("behavioural probe: the TLS transport's write BIO / send lock could not be instrumented")
+    return out
+
+
+_PARAMS = None
+PROVENANCE = {}
+
+
+def source_params():
+    """fact -> value; PROVENANCE[fact] in {"ast+behavioural", "behavioural (...)"}.  The probes on the real objects always
+    decide; when the `ast` reader understands the source it must agree with them (disagreement = fail closed).  Every
+    value must be True for Conc/FairLock.v and Conc/TlsSend.v to be the code: Props/C12.v proves exactly that."""
+    global _PARAMS, PROVENANCE
+    from common import runner
+
+    if _PARAMS is not None:
+        return _PARAMS
+    beh = behavioural_params()
+    static, why = {}, []
+    for reader in (ast_params, ast_params_tls):
+        try:
+            static.update(reader())
+        except _Outside as exc:
+            why.append(str(exc))
+    prov = {}
+    for k, v in beh.items():
+        if k in static:
+            if static[k] != v:
+                raise runner.TranslateError(f"{k}: the source reads {static[k]} but the probe on the real object says {v}")
+            prov[k] = "ast+behavioural"
+        else:
+            prov[k] = "behavioural (ast reader: " + "; ".join(why) + ")"
+    PROVENANCE = prov
+    _PARAMS = beh
+    return beh
+
+
 def params():
     p = source_params()
-    return "".join(f"Definition {k} : bool := {'true' if v else 'false'}.\n" for k, v in sorted(p.items()))
+    return "".join(f"(* [{PROVENANCE[k].split(' (')[0]}] *)\nDefinition {k} : bool := {'true' if v else 'false'}.\n"
+                   for k, v in sorted(p.items()))
+
+
+def extra(ctx):
+    try:
+        sp = source_params()
+        return dict(source_params=sp, source_params_provenance=dict(PROVENANCE))
+    except Exception as exc:      # (a TranslateError is already reported through params())
+        return dict(source_params=f"unavailable: {exc}")
 
 
 # ------------------------------------------------------------------------------------------------ packets
@@ -895,6 +1095,10 @@ def oracle(inp):
     readers = set(inp[3]) if len(inp) > 3 else set()
     snaps, wire = execute(kind, progs, actions, epilogue=True, readers=readers)
     if isinstance(wire, list):      # TLS: plaintext decrypted by the peer, per transport call
+        notes = [w for w in wire if w.startswith(b"<unlocked> ")]
+        if notes:
+            return "interleaved: " + notes[0][11:].decode() + " (nothing orders that ciphertext with the other senders' any more)"
+        wire = [w for w in wire if not w.startswith(b"<unlocked> ")]
         if wire and wire[-1] == b"<overlap>":
             return ("interleaved: two transport.send_all calls of the TLS transport were in flight at once (on a transport "
                     "that writes partially the ciphertext of one flush is cut by the other)")
